@@ -68,6 +68,10 @@ class Mirror(object):
                 u.add((k, 'Valve'))
         return u
 
+    def curve_referenced(self, c):
+        """users plus references the registries do not track (pump efficiency curves)"""
+        return bool(self.curve_users(c)) or any(l.get('eff') == c for l in self.links.values())
+
     def controls_requiring(self, kind, name):
         return [k for k, c in self.controls.items() if (kind, name) in c['requires']]
 
@@ -130,7 +134,7 @@ def mirror_step(m, op):
         if op['name'] in m.links or op['a'] not in m.nodes or op['b'] not in m.nodes or op['a'] == op['b']:
             return 'skip'
         if k == 'add_pipe':
-            m.links[op['name']] = {'type': 'pipe', 'a': op['a'], 'b': op['b']}
+            m.links[op['name']] = {'type': 'pipe', 'a': op['a'], 'b': op['b'], 'cv': bool(op.get('cv')), 'status': op.get('status', 'OPEN')}
         elif k == 'add_pump':
             if op.get('pattern') and op['pattern'] not in m.patterns:
                 return 'skip'
@@ -161,7 +165,7 @@ def mirror_step(m, op):
         # conditions need the right node types; actions the right attribute for the link type
         if not _control_wellformed(m, op['spec']):
             return 'skip'
-        m.controls[op['name']] = {'kind': op['spec']['kind'], 'requires': req}
+        m.controls[op['name']] = {'kind': op['spec']['kind'], 'requires': req, 'canonical': cond_canonical(op['spec']['cond'])}
         return 'ok'
     if k == 'add_demand':
         n = m.nodes.get(op['node'])
@@ -203,6 +207,8 @@ def mirror_step(m, op):
             return 'skip'
         if m.curve_users(op['name']):
             return 'refuse'
+        if any(l.get('eff') == op['name'] for l in m.links.values()):
+            return 'skip'       # efficiency curves are not usage-tracked; removing one that a pump holds is not generated
         del m.curves[op['name']]
         return 'ok'
     if k == 'remove_source':
@@ -276,6 +282,16 @@ def mirror_step(m, op):
             return 'skip'
         if op['attr'] == 'energy_pattern' and op['value'] not in m.patterns:
             return 'skip'
+        if op['attr'] == 'efficiency_curve':
+            e['eff'] = op['value']
+        if e.get('type') == 'pipe' and op['attr'] == 'initial_status':
+            if e.get('cv') and op['value'] != 'OPEN':
+                return 'skip'       # the INP pipe status field is one of OPEN / CLOSED / CV
+            e['status'] = op['value']
+        if e.get('type') == 'pipe' and op['attr'] == 'cv':
+            if op['value'] and e.get('status') != 'OPEN':
+                return 'skip'
+            e['cv'] = bool(op['value'])
         if op['attr'] in ('mixing_model', 'tank_bulk', 'mixing_2comp') and e.get('type') != 'T':
             return 'skip'
         if op['attr'] == 'mixing_model' and op['value'] == '2COMP':
@@ -285,12 +301,36 @@ def mirror_step(m, op):
         n = m.nodes.get(op['node'])
         if n is None or n['type'] not in ('J', 'T'):
             return 'skip'
+        pre = ('junction' if n['type'] == 'J' else 'tank') + op['node']
+        names = (pre + 'start_leak_control', pre + 'end_leak_control')
+        if k == 'add_leak':
+            if names[0] in m.controls or names[1] in m.controls:
+                return 'skip'        # a second add_leak without remove_leak is refused by add_control (duplicate name)
+            if op.get('start') is not None:
+                m.controls[names[0]] = {'kind': 'simple', 'requires': set([('n', op['node'])])}
+            if op.get('end') is not None:
+                m.controls[names[1]] = {'kind': 'simple', 'requires': set([('n', op['node'])])}
+        else:
+            m.controls.pop(names[0], None)
+            m.controls.pop(names[1], None)
         return 'ok'
-    if k == 'set_option':
+    if k in ('set_option', 'set_options'):
         return 'ok'
     if k == 'restart':
         return 'restart'
     raise ValueError('unknown op %r' % (op,))
+
+
+def cond_canonical(c):
+    """EPANET rule text has no parentheses: a premise list reads as a conjunction of OR-groups.  Only trees of that shape
+    (left-nested AND chain whose operands are left-nested OR chains of simple conditions) can be written and read back."""
+    def or_chain(x):
+        if x['t'] == 'or':
+            return or_chain(x['a']) and x['b']['t'] not in ('and', 'or')
+        return x['t'] != 'and'
+    if c['t'] == 'and':
+        return cond_canonical(c['a']) and or_chain(c['b'])
+    return or_chain(c)
 
 
 def _control_wellformed(m, spec):
@@ -392,6 +432,8 @@ def real_step(wn, op):
             e.vertices = [tuple(p) for p in v]
         elif a == 'cv':
             e.check_valve = bool(v)
+        elif a == 'efficiency_curve':
+            e.efficiency = wn.get_curve(v)
         elif a == 'tank_bulk':
             e.bulk_coeff = v
         elif a == 'mixing_2comp':
@@ -403,6 +445,9 @@ def real_step(wn, op):
         wn.get_node(op['node']).add_leak(wn, area=op['area'], discharge_coeff=op.get('cd', 0.75), start_time=op.get('start'), end_time=op.get('end'))
     elif k == 'remove_leak':
         wn.get_node(op['node']).remove_leak(wn)
+    elif k == 'set_options':
+        for path, value in op['items']:
+            real_step(wn, {'op': 'set_option', 'path': path, 'value': value})
     elif k == 'set_option':
         obj = wn.options
         path = op['path'].split('.')
@@ -654,7 +699,7 @@ def rename_after_restart(m, how):
     if how == 'inp':
         # the INP format stores no type for a curve: curves nothing refers to come back untyped (outside the statement)
         for cname, cu in m.curves.items():
-            if not m.curve_users(cname):
+            if not m.curve_referenced(cname):
                 cu['type'] = None
         new = OrderedDict()
         for i, (name, s) in enumerate(m.sources.items()):
